@@ -45,6 +45,16 @@ Hardening pass 2 (HARDENING2.md).
   F foreign traffic     other consumers of cart_to_polar / polar_to_cart / optimize_xy_separable / make_xy_grid / config.precision
                         run first (returned grids edited in place, precision 32, polynomial bases on the same grid objects), then
                         the primitives and one aperture of each family are judged
+
+Hardening pass 3 (HARDENING3.md).
+  H exact coincidences  keystone apertures with radial_gap == 0 (and gaps of exactly 1 or 2 samples), azimuthal gap 0 / default / whole
+                        samples, ring radii whole numbers of samples on grids with an exactly representable pitch, rotations that put
+                        seams on and off the sample rows: the whole keystone check (count, no sample in two segments, amp in the union,
+                        areas, radial extent, piston confinement, linearity) plus "a unit piston on every segment is the 0/1 indicator
+                        of the union"; keys carry /special:gap=0
+  G magnitudes / units  compose_opd(s c) == s compose_opd(c) for s = 1e-12 ... 1e12 (both aperture classes, centre and segment
+                        coefficients), one segment tiny among O(1) neighbours, pistons of 5e-9 and 1e-12 confined like a unit piston;
+                        the same aperture described in other units (x, y and every length times 2**-30 ... 1e9) is the same segmentation
 """
 import inspect
 import math
@@ -70,7 +80,10 @@ RULE = ('primitives: grid class (odd/even, square/non-square, several samplings)
         'grid-layout forms of the hexagonal constructor and ~45 of the keystone constructor (per-ring arguments as scalar / list / '
         'tuple / ndarray / numpy scalars / None lists, lists re-used by a second constructor); primitives: every multiple of 45 '
         'degrees in [-720, 720] in 6 scalar forms and +-360, sizes / counts / centres in every scalar and container form; '
-        'foreign-traffic preludes (3 kinds) on the very grid that is judged afterwards')
+        'foreign-traffic preludes (3 kinds) on the very grid that is judged afterwards.  Hardening pass 3: keystone coincidence cases '
+        '(7 exact sample pitches x 8 (thorough 12) grid sizes x rings 1..3 x radial gap 0 / 1 / 2 samples x azimuthal gap 0 / default / 1 / 2 '
+        'samples x 6 rotation classes, integer radii in samples; non-trivial when a transmitting sample lies exactly on a ring radius); '
+        'OPD magnitude cases (hex / keystone x rings 1..3 x 6 factors x tiny-segment-among-O(1) x tiny pistons) and unit changes (6 factors)')
 ASSUMPTIONS = ['size conventions measured on the pinned tree: circle/annulus radius, polygon circumradius, rectangle half-width / '
                'half-height, ellipse semi-axes, spider full vane width; the statement does not fix a rotation sense, either is '
                'accepted but it must not change during a run',
@@ -99,7 +112,15 @@ ASSUMPTIONS = ['size conventions measured on the pinned tree: circle/annulus rad
                'single precision, so those forms are compared off the rasterised edge of every segment; values used for float32 forms are '
                'exactly representable in float32',
                'grids returned by cart_to_polar / polar_to_cart / make_xy_grid / optimize_xy_separable belong to the caller: editing them '
-               'in place must not change later masks']
+               'in place must not change later masks',
+               'exact coincidences: with radial_gap == 0 a sample whose radius equals a shared ring radius to the last bit is still owned by '
+               'at most one segment (the statement\'s "no sample belongs to two segments" has no exception for touching rings); which of the '
+               'two neighbours owns it is not fixed.  Measured on the current tree: ring j is inner < r <= outer, the centre disc r <= R, '
+               'seams are open.  Hexagonal apertures with segment_separation == 0 remain out of domain (closed hexagons share edge samples: '
+               '256 doubly-owned samples on a 256x256 grid with dx = 1/32, d = 1, measured)',
+               'compose_opd is linear, hence homogeneous: factors 1e-12 ... 1e12 are judged at the ordinary 1e-10 relative to the scaled '
+               'reference, which is composed at O(1) and multiplied afterwards; unit changes by a power of two are exact for keystones '
+               '(compared sample by sample), other factors and all hexagonal apertures are compared off the rasterised edge']
 REQUIRED = ['circle.membership', 'annulus.membership', 'regular_polygon.membership', 'rectangle.membership',
             'rotated_ellipse.membership', 'spider.membership', 'offset_circle.membership',
             'primitive.monotone', 'primitive.symmetry',
@@ -112,7 +133,9 @@ REQUIRED = ['circle.membership', 'annulus.membership', 'regular_polygon.membersh
             'keystone.grid-arrays-reused', 'hex.coef-forms', 'hex.coef-repeat', 'keystone.coef-forms', 'keystone.coef-repeat',
             'precision32.cases', 'precision32-then-64.cases', 'regime.hex-rings>=4', 'regime.keystone-rings>=4',
             'regime.polygon-sides>12', 'regime.aspect',
-            'form.hex-exclude', 'form.hex-args', 'form.keystone-args', 'form.angle', 'form.primitive-args', 'foreign.cases']
+            'form.hex-exclude', 'form.hex-args', 'form.keystone-args', 'form.angle', 'form.primitive-args', 'foreign.cases',
+            'special.keystone-gap0', 'special.keystone-piston-sum', 'scale.hex-opd', 'scale.keystone-opd', 'scale.hex-units',
+            'scale.keystone-units']
 
 CTX = None
 SENSE = {}
@@ -2293,6 +2316,216 @@ def _foreign_prelude(hostile, coordinates, g, precision, x, y, dx, r):
         rn *= 2.0
 
 
+# =========================================================================================== hardening pass 3 (HARDENING3.md)
+# H  exact coincidences: keystone apertures whose rings abut (radial_gap == 0, also gaps of exactly 1 or 2 samples) with azimuthal gap
+#    0 / default / a whole number of samples, on grids whose samples land exactly on the ring radii (sample pitch a binary or decimal
+#    fraction, every radius a whole number of samples: on-axis samples and Pythagorean triples have r == radius to the last bit).
+#    The statement decides these samples: no sample in two segments, every transmitting sample in exactly one, pistons confined, the
+#    unit piston on every segment is the 0/1 indicator of the union.  Established on /repo @ c2c1d7f: the tree satisfies all of it
+#    (ring j is inner < r <= outer, the centre disc r <= R, seams are open on both sides and never transmit).
+#    Hexagonal apertures with segment_separation == 0 stay out of domain (ASSUMPTIONS: closed hexagons share their edge samples).
+# G  magnitudes / units: compose_opd is homogeneous of degree one for factors 1e-12 ... 1e12, a segment with tiny coefficients among
+#    O(1) neighbours still gets its own OPD, a 5e-9 piston is confined like a unit piston; an aperture described in other units
+#    (grid and every length multiplied by k = 2**-30 ... 1e9) is the same segmentation.
+EXACT_DX = [1 / 32, 1 / 16, 0.025, 1 / 64, 0.05, 0.125, 0.1]
+OPD_FACTORS = [('tiny', 1e-12), ('tiny', 1e-9), ('tiny', 5e-9), ('small', 1e-6), ('large', 1e6), ('huge', 1e12)]
+UNIT_FACTORS = [2.0 ** -30, 2.0 ** 30, 1e-9, 1e-6, 1e6, 1e9]
+
+
+def _p3_keystone_coincidence(ctx, Key, rng):
+    t = Tagged(ctx, '/special:gap=0')
+    sizes = [128, 129, 160, 192, 200, 256, 257, 320] if ctx.quick else [128, 129, 160, 192, 200, 256, 257, 320, 384, 400, 512, 513]
+    with driving(t, wl='keystone-coincidence'):
+        for k in range(ctx.pick(32, 1600)):
+            sub = ctx.subseed(rng)
+            if not ctx.mine(k):
+                continue
+            r = np.random.default_rng(sub)
+            dx = EXACT_DX[k % len(EXACT_DX)]
+            n0 = sizes[(k // 2) % len(sizes)]
+            n1 = n0 if (k // 7) % 3 else n0 + [1, -1, 16][(k // 21) % 3]
+            halfs = min(n0, n1) // 2 - 2
+            rings = 1 + k % 3
+            gs = [0, 0, 0, 1, 2][(k // 3) % 5]             # radial gap in samples: 0 in three cases of five
+            a = int(r.integers(6, max(8, halfs // 3)))
+            bmax = (halfs - a - rings * gs) // rings
+            if bmax < 5:
+                ctx.skip('keystone coincidence: ring narrower than 5 samples (not generated)')
+                continue
+            widths = [int(r.integers(5, bmax + 1)) for _ in range(rings)]
+            if k % 4 == 1:
+                widths = [widths[0]] * rings
+            ag = [0.0, None, 1.0, 2.0, 0.0][(k // 2) % 5]
+            agap = None if ag is None else ag * dx
+            spr = [int(r.integers(1, 13)) if r.random() < 0.5 else int(r.integers(2, 7)) * (j + 1) for j in range(rings)]
+            rot = [None, 0.0, 17.0, [float(v) for v in np.round(r.uniform(0, 180, rings), 1)], 45.0, float(np.round(r.uniform(0, 180), 2))][(k // 5) % 6]
+            ccd = 2 * (a * dx)
+            rr_list = [w * dx for w in widths]
+            rgap = gs * dx
+            kw = dict(center_circle_diameter=ccd, rings=rings, ring_radius=rr_list if k % 4 != 1 else rr_list[0],
+                      segments_per_ring=spr, radial_gap=rgap, azimuthal_gap=agap, rotation_per_ring=rot)
+            desc = {'wl': 'keystone-coincidence', 'grid': (n0, n1), 'dx': dx, 'centre_radius_samples': a, 'ring_width_samples': widths,
+                    'radial_gap_samples': gs, 'seed': sub, 'kclass': '',
+                    'class': f'special:keystone:radial_gap={"0" if gs == 0 else "whole-samples"}:agap={"default" if ag is None else "0" if ag == 0 else "whole-samples"}'
+                             f':rings={rings}:{grid_class(n0, n1)}', **kw}
+            x, y = grid(n0, n1, dx)
+            rfull = np.hypot(x, y)
+            with t.guard('C18/keystone', desc):
+                ap = Key(x, y, **kw)
+                amp = np.asarray(ap.amp) != 0
+                # samples exactly on a radius two neighbours share (gap 0) or on any ring edge (gap > 0)
+                radii, ro = [], a * dx
+                for w in widths:
+                    radii.append(ro)
+                    ri = ro + rgap
+                    radii.append(ri)
+                    ro = ri + w * dx
+                radii.append(ro)
+                on = np.zeros(x.shape, dtype=bool)
+                for R in radii:
+                    on |= (rfull == R)
+                desc['samples_exactly_on_ring_radii'] = int(on.sum())
+                desc['of_which_transmit'] = int((on & amp).sum())
+                ctx.case(desc, nontrivial=bool((on & amp).any()))
+                if (on & amp).any():
+                    ctx.observe('special.keystone-gap0')
+                else:
+                    ctx.skip('keystone coincidence: no transmitting sample exactly on a ring radius (every such sample is on a seam)')
+                ok = _check_keystone(t, ap, r, x, y, dx, ccd, rings, rr_list, spr, rgap, rgap if agap is None else agap, desc)
+                if not ok:
+                    continue
+                # the unit piston on every segment at once is the 0/1 indicator of the union of the segments
+                _keystone_prepare(ap, 'zernike/zernike', [(0, 0)], [(0, 0)])
+                nseg = len(ap.segment_ids)
+                opd = np.asarray(ap.compose_opd(np.ones(1), np.ones((nseg, 1))))
+                union = _scatter(x.shape, [ap.center_window] + list(ap.segment_windows),
+                                 [np.asarray(ap.center_mask)] + [np.asarray(m) for m in ap.segment_masks]) > 0
+                vals = np.unique(opd)
+                t.require('special.keystone-piston-sum', bool(np.array_equal(opd, union.astype(opd.dtype))), 'C18/keystone/unit-piston-sum-not-0/1',
+                          'a unit piston on every segment is not 1 on the union of the segments and 0 elsewhere (a sample is composed '
+                          'twice or not at all)', desc, values=[float(v) for v in vals[:6]])
+
+
+def _p3_opd_case(ctx, fam, compose, shapes, segs, unit, r, desc):
+    """Class G laws of compose_opd.  `shapes`: shapes of the coefficient arguments (keystone: centre, segments), `segs`: full-grid mask
+    of the segment each coefficient row drives, as [(argument index, row index or None, mask)]."""
+    mon = f'scale.{fam}-opd'
+    cs = [r.standard_normal(sh_) for sh_ in shapes]
+    base = np.array(compose(*[c.copy() for c in cs]))
+    bmax = max(float(np.abs(base).max()), 1e-300)
+    for lab, f in OPD_FACTORS:
+        got = compose(*[f * c for c in cs])
+        ctx.close(mon, got, f * base, f'C18/{fam}/compose_opd/scale:{lab}', f'compose_opd(s c) != s compose_opd(c) for s = {f:g}', dict(desc, factor=f),
+                  rtol=1e-10, scale=f * bmax)
+    # one segment tiny among O(1) neighbours: inside that segment the map is the map of that segment alone
+    for f in (1e-10, 3e-9):
+        ai, ri, mask = segs[int(r.integers(len(segs)))]
+        mixed = [c.copy() for c in cs]
+        only = [np.zeros_like(c) for c in cs]
+        if ri is None:
+            mixed[ai] *= f
+            only[ai][...] = cs[ai]
+        else:
+            mixed[ai][ri] *= f
+            only[ai][ri] = cs[ai][ri]
+        got = np.asarray(compose(*mixed))
+        ref = f * np.asarray(compose(*only))          # composed at O(1), then scaled: the reference never sees tiny coefficients
+        sc = float(np.abs(ref[mask]).max()) if mask.any() else 0.0
+        if sc == 0.0:
+            ctx.skip(f'{fam} opd magnitudes: the chosen segment has no sample / no response')
+            continue
+        ctx.close(mon, got[mask], ref[mask], f'C18/{fam}/compose_opd/scale:one-segment-tiny', 'a segment whose coefficients are tiny next to '
+                  'O(1) coefficients on its neighbours does not get the OPD of its own coefficients', dict(desc, factor=f), rtol=1e-10, scale=sc)
+    # a 5 nm piston in metres, a 1e-12 piston: confined like a unit piston
+    for amp_ in (5e-9, 1e-12):
+        ai, ri, mask = segs[int(r.integers(len(segs)))]
+        co = [np.zeros(sh_) for sh_ in shapes]
+        if ri is None:
+            co[ai][0] = amp_
+        else:
+            co[ai][ri, 0] = amp_
+        opd = np.asarray(compose(*co))
+        okc = np.array_equal(opd != 0, mask) and (not unit or bool(np.all(opd[mask] == amp_)))
+        ctx.require(mon, okc, f'C18/{fam}/piston-not-confined/scale:tiny', f'a piston of {amp_:g} on one segment does not change exactly the '
+                    'samples of that segment', dict(desc, piston=amp_), outside=int(((opd != 0) & ~mask).sum()), missing=int(((opd == 0) & mask).sum()))
+
+
+def _p3_magnitudes(ctx, Hex, Key, rng):
+    from prysm.polynomials import zernike_nm_seq
+    grids = [(64, 64), (65, 65), (96, 97), (81, 64), (128, 128)] + ([] if ctx.quick else [(129, 160), (200, 201), (257, 257)])
+    with driving(ctx, wl='magnitudes'):
+        for k in range(ctx.pick(24, 1600)):
+            sub = ctx.subseed(rng)
+            if not ctx.mine(k // 2):          # both families of one index on the same shard: every shard sees both
+                continue
+            r = np.random.default_rng(sub)
+            fam = ['hex', 'keystone'][k % 2]
+            n0, n1 = grids[(k // 2) % len(grids)]
+            rings = 1 + (k // 2) % 3
+            uk = UNIT_FACTORS[(k // 2) % len(UNIT_FACTORS)]
+            exact = uk in (2.0 ** -30, 2.0 ** 30)
+            if fam == 'hex':
+                geo = _hex_geometry(r, n0, n1, rings)
+                if geo is None:
+                    ctx.skip('hex: segment smaller than 6 samples for this grid/ring count (not generated)')
+                    continue
+                dx, d, gap = geo
+                x, y = grid(n0, n1, dx)
+                angle = [90, 0][(k // 2) % 2]
+                excl = _exclusion(r, ['none', 'centre', 'random'][(k // 6) % 3], sh.hex_count(rings))
+                desc = {'wl': 'magnitudes', 'family': 'hex', 'grid': (n0, n1), 'dx': dx, 'rings': rings, 'segment_diameter': d,
+                        'segment_separation': gap, 'segment_angle': angle, 'exclude': list(excl), 'unit_factor': uk, 'seed': sub,
+                        'class': f'scale:hex:rings={rings}:angle={angle}'}
+                ctx.case(desc)
+                with ctx.guard('C18/hex/scale', desc):
+                    ap = Hex(x, y, rings, d, gap, segment_angle=angle, exclude=excl)
+                    apk = Hex(x * uk, y * uk, rings, d * uk, gap * uk, segment_angle=angle, exclude=excl)
+                    _same_hex(ctx, 'scale.hex-units', apk, ap, 'C18/hex/scale:units', 'the same hexagonal aperture described in other units '
+                              '(grid, diameter and separation multiplied by one factor) is another segmentation', desc, band_only=True)
+                    if any(min(np.asarray(m).shape) < 2 for m in ap.local_masks):
+                        ctx.skip('hex.opd: a segment window is empty or one sample wide (segment off the grid); OPD bases not prepared')
+                        continue
+                    spec = _hex_spec(r, ['zernike', 'xy'][(k // 4) % 2], int(r.integers(1, 6)))
+                    ap.prepare_opd_bases(spec[1], spec[2], basis_func_kwargs=spec[3])
+                    nseg, nt = len(ap.segment_ids), len(spec[2])
+                    segs = [(0, j, _full(x.shape, ap.windows[j], ap.local_masks[j])) for j in range(nseg)]
+                    _p3_opd_case(ctx, 'hex', lambda c: ap.compose_opd(c), [(nseg, nt)], segs, spec[4], r, desc)
+            else:
+                geo = _keystone_geometry(r, n0, n1, rings)
+                if geo is None:
+                    ctx.skip('keystone: ring narrower than 5 samples for this grid/ring count (not generated)')
+                    continue
+                dx, kw = geo
+                x, y = grid(n0, n1, dx)
+                desc = {'wl': 'magnitudes', 'family': 'keystone', 'grid': (n0, n1), 'dx': dx, 'unit_factor': uk, 'seed': sub,
+                        'class': f'scale:keystone:rings={rings}', **kw}
+                ctx.case(desc)
+                with ctx.guard('C18/keystone/scale', desc):
+                    ap = Key(x, y, **kw)
+                    kwk = {k2: (v * uk if k2 in ('center_circle_diameter', 'ring_radius', 'radial_gap') or (k2 == 'azimuthal_gap' and v is not None) else v)
+                           for k2, v in kw.items()}
+                    apk = Key(x * uk, y * uk, **kwk)
+                    _same_keystone(ctx, 'scale.keystone-units', apk, ap, 'C18/keystone/scale:units', 'the same keystone aperture described in '
+                                   'other units (grid and every length multiplied by one factor) is another segmentation', desc, band_only=not exact)
+                    if any(min(np.asarray(m).shape) < 2 for m in list(ap.segment_masks) + [ap.center_mask]):
+                        ctx.skip('keystone.opd: a segment window is empty or one sample wide (segment off the grid); OPD bases not prepared')
+                        continue
+                    mode, zn, xn = _keystone_spec(r, ['zernike/zernike', 'zernike/xy', 'xy/zernike'][(k // 4) % 3])
+                    nc, ns = _keystone_prepare(ap, mode, zn, xn)
+                    nseg = len(ap.segment_ids)
+                    segs = [(0, None, _full(x.shape, ap.center_window, ap.center_mask))] + \
+                           [(1, j, _full(x.shape, ap.segment_windows[j], ap.segment_masks[j])) for j in range(nseg)]
+                    _p3_opd_case(ctx, 'keystone', lambda a_, b_: ap.compose_opd(a_, b_), [(nc,), (nseg, ns)], segs, mode == 'zernike/zernike', r, desc)
+    del zernike_nm_seq
+
+
+def _run_pass3(ctx):
+    from prysm.segmented import CompositeHexagonalAperture as Hex, CompositeKeystoneAperture as Key
+    rng = ctx.rng('c18-pass3')
+    _p3_keystone_coincidence(ctx, Key, rng)
+    _p3_magnitudes(ctx, Hex, Key, rng)
+
+
 # =========================================================================================== run
 def run(ctx):
     global CTX
@@ -2311,6 +2544,7 @@ def run(ctx):
         _run_regimes(ctx)
         _run_forms(ctx)
         _run_foreign(ctx)
+        _run_pass3(ctx)
         ctx.note('rotation_sense', {k: ('+' if v > 0 else '-') for k, v in SENSE.items()})
     finally:
         detach_all()
